@@ -345,7 +345,9 @@ RFlushLeave ==
   /\ UNCHANGED RU
   /\ UNCHANGED lastOv
 
-\* [awake.reset] inside flush
+\* [awake.reset] inside flush.  (Since compio ca1210a flush() also reports a non-empty completed channel and since
+\* 3888dbb poll() does not return early after poll_blocking: thread-pool completions are not a wake source of this
+\* module, so no step here changes; CompatLoop.tla, which EXTENDS this module, models both - XFlushReset, XPollBlocking.)
 RFlushReset ==
   /\ (pcR = "flushReset" \/ (pcR = "flush" /\ Driver = "poll"))
   /\ extNotified' = HasN(flag) /\ flag' = IDLE
